@@ -449,6 +449,34 @@ pub fn generate(rng: &mut Rng, tier: Tier, emit: &mut dyn FnMut(String)) {
         let desc = desc_tokens(d);
         let (sop, dop) = if d.kind == "value" { ("sv", "dv") } else { ("sr", "dr") };
         let n_opt = all_leaves(d).iter().filter(|(f, _)| f.opt).count();
+        // `deserialize` WITHOUT `type_check` (a sample: structs whose fields are all i32 / String / Option of those)
+        if info.de_raw.is_some() && all_leaves(d).iter().all(|(f, _)| f.ty == "int" || f.ty == "text") {
+            let kind_tok = if d.kind == "value" { "udt" } else { "row" };
+            let vs = db_variants(rng, d, tier);
+            let step = if tier == Tier::Quick { 7 } else { 2 };
+            for db in vs.iter().step_by(step) {
+                if db.iter().any(|c| c.ty == "list" || c.ty == "udt") {
+                    continue;
+                }
+                // payloads readable under either type: ASCII bytes; an int column carries 4 of them
+                let cells: Vec<Leaf> = db
+                    .iter()
+                    .map(|c| {
+                        if rng.chance(1, 6) {
+                            None
+                        } else {
+                            let n = if c.ty == "int" { 4 } else { *rng.pick(&[0usize, 1, 3, 4]) };
+                            Some((0..n).map(|_| b'a' + rng.below(26) as u8).collect())
+                        }
+                    })
+                    .collect();
+                let mut cells = cells;
+                if rng.chance(1, 8) && !cells.is_empty() {
+                    cells.pop();
+                }
+                emit(format!("du {} ; {} ; {} {}", desc, db_tokens(db), kind_tok, toks(&cells)).replace("  ", " ").trim_end().to_owned());
+            }
+        }
         if info.is_empty.is_some() {
             let vals = gen_vals(rng, d, None);
             emit(format!("ie {} ; ; {}", desc, toks(&vals)).trim_end().to_owned());
@@ -1038,6 +1066,29 @@ pub fn run(case: &str, ctx: &mut Ctx) -> String {
         return "bad-case descriptor-differs-from-table".to_owned();
     }
     let Some(db) = parse_db(&sections[1]) else { return "bad-case".to_owned() };
+    if op == "du" {
+        let Some(raw) = info.de_raw else { return "bad-case".to_owned() };
+        let kind_ok = sections[2].first().is_some_and(|k| (*k == "udt") == (d.kind == "value") && (*k == "udt" || *k == "row"));
+        let Some(cells) = parse_vals(&sections[2][1.min(sections[2].len())..]) else { return "bad-case".to_owned() };
+        if !kind_ok {
+            return "bad-case".to_owned();
+        }
+        let bytes = encode_cells(&cells);
+        let checked = info.de.map(|de| de(&db, Some(&bytes)));
+        let res = std::panic::catch_unwind(std::panic::AssertUnwindSafe(|| raw(&db, Some(&bytes))));
+        return match res {
+            Err(_) => {
+                // a panic in the generated code is legitimate only on input the type check rejects
+                if let Some(Ok(_)) | Some(Err(DeErr::Deser(_))) = checked {
+                    ctx.fail("generated deserialize panicked on input that passes type_check");
+                }
+                "PANIC".to_owned()
+            }
+            Ok(Ok(v)) => fmt_ok(&v),
+            Ok(Err(DeErr::Deser(e))) => format!("err deser {}", de_err_kind(&d.kind, &e)),
+            Ok(Err(DeErr::TypeCheck(e))) => format!("err typecheck {}", tc_err_kind(&d.kind, &e)),
+        };
+    }
     // `dv … ; … ; NULL`: the whole UDT value is null
     let whole_null = op == "dv" && sections[2] == ["NULL"];
     let Some(vals) = (if whole_null { Some(vec![]) } else { parse_vals(&sections[2]) }) else { return "bad-case".to_owned() };
